@@ -121,7 +121,7 @@ func CheckCall(sc *Scenario, v *CallView, rs RuleSet, em int) []Violation {
 				returned = x.RetTrue
 			case RetKind:
 				returned, val = x.RetTrue && !(x.Fired && x.FirePoint == retPoint), int64(x.Ver)*1000+int64(x.Rule)
-			case RetTop:
+			case RetTop, RetTopLoop:
 				returned, val = x.Ended && !x.Fired, int64(x.Ver)*1000+int64(x.Rule)
 			case RetTopB:
 				returned = x.Ended && !x.Fired
